@@ -128,8 +128,22 @@ func (c06) Exec(c Case) []string {
 		case "route":
 			idx := nroutes
 			nroutes++
-			r := router.NewRoute()
-			for _, m := range op[1:] {
+			h := func(s xmpp.Sender, p stanza.Packet) { log = append(log, idx) }
+			ms := op[1:]
+			var r *xmpp.Route
+			if len(ms) > 0 && strings.HasPrefix(ms[0], "name:") && idx%2 == 1 {
+				// the convenience API: Router.HandleFunc / Router.Handle register a route for a packet name, further
+				// matchers are chained onto the route they return (every call adds a route of its own)
+				if idx%4 == 1 {
+					r = router.HandleFunc(unhx(ms[0][5:]), h)
+				} else {
+					r = router.Handle(unhx(ms[0][5:]), xmpp.HandlerFunc(h))
+				}
+				ms = ms[1:]
+			} else {
+				r = router.NewRoute()
+			}
+			for _, m := range ms {
 				switch {
 				case strings.HasPrefix(m, "name:"):
 					r.Packet(unhx(m[5:]))
@@ -139,7 +153,7 @@ func (c06) Exec(c Case) []string {
 					r.IQNamespaces(splitHex(m[3:])...)
 				}
 			}
-			r.HandlerFunc(func(s xmpp.Sender, p stanza.Packet) { log = append(log, idx) })
+			r.HandlerFunc(h)
 			obs = append(obs, "ok")
 		case "pkt":
 			attrs := stanza.Attrs{Type: stanza.StanzaType(unhx(op[2])), Id: unhx(op[4]), From: unhx(op[5]), To: unhx(op[6])}
@@ -153,6 +167,10 @@ func (c06) Exec(c Case) []string {
 				iq := &stanza.IQ{Attrs: attrs}
 				if op[3] != "~" {
 					iq.Payload = &fakePayload{ns: unhx(op[3])}
+				}
+				if attrs.Type == stanza.IQTypeError {
+					// an error response carries its <error/> (next to the echoed payload, if any)
+					iq.Error = &stanza.Err{Type: stanza.ErrorTypeCancel, Reason: "item-not-found"}
 				}
 				p = iq
 			case op[1] == "other:streamerror":
@@ -284,6 +302,17 @@ func (c06) Generate(rng *rand.Rand, tier string, st *Stats) []Case {
 		n++
 	}
 	mk(nil) // empty table
+	// the same packet name registered several times (set-up code that runs twice, a generic route and a narrower one
+	// after it): every registration is a route of its own, the first one that accepts wins
+	for _, nm := range []string{"iq", "message", "presence", "IQ"} {
+		a := "name:" + hx(nm)
+		mk([][]string{{a}, {a}})
+		mk([][]string{{a}, {a, "ns:" + hx("jabber:iq:version")}, nil})
+		mk([][]string{nil, {a}, {a, "type:" + hx("chat")}})
+		mk([][]string{{a, "type:" + hx("get") + "," + hx("chat")}, {a}, {a}, nil})
+		mk([][]string{{"name:" + hx("x")}, {a}, {"name:" + hx("x")}, {a}})
+		st.Inc("same_name_twice")
+	}
 	for _, r1 := range routesets {
 		mk([][]string{r1})
 	}
